@@ -133,7 +133,8 @@ inline int driver_main() {
         auto it = registry().find(op);
         if (it == registry().end()) { std::cout << id << " " << op << " UNSUPPORTED" << std::endl; continue; }
         try {
-            std::cout << id << " " << op << " " << it->second(t) << std::endl;
+            std::string r = it->second(t);      // evaluate first: an exception must not leave a partial line
+            std::cout << id << " " << op << " " << r << std::endl;
         } catch (const std::exception &e) {
             std::cout << id << " " << op << " EXC " << exc_kind(e) << std::endl;
         }
